@@ -400,14 +400,22 @@ def ins_job(draw, resume_cycles=(0, 0), nlive=(100, 500),
     kw["checkpoint_on_iteration"] = True
     kw["checkpoint_interval"] = draw(st.integers(1, 3))
     n_cycles = draw(st.integers(*resume_cycles))
+    if n_cycles and kw["checkpoint_interval"] == 3:
+        # with 6-12 iterations a first checkpoint after the third one leaves
+        # most kills without anything to resume from
+        kw["checkpoint_interval"] = 1
     kills = []
     for i in range(n_cycles):
         if draw(st.integers(0, 3)) == 0:
             # the k-th level is drawn in iteration k: later than the first
             # checkpoint, so that the next process resumes
+            # (the event counts ImportanceFlowProposal.draw calls: two per
+            # iteration with draw_iid_live)
+            dpi = 2 if kw["draw_iid_live"] else 1
             kills.append({"event": "level",
-                          "k": kw["checkpoint_interval"]
-                          + draw(st.integers(1, 3))})
+                          "k": dpi * (kw["checkpoint_interval"]
+                                      + draw(st.integers(0, 2)))
+                          + draw(st.integers(1, dpi))})
         else:
             kills.append(draw(st.floats(0.3, 0.97 if i == 0 else 0.6)))
     if kills:
